@@ -14,4 +14,5 @@ b u16 cargo build --release --offline --features utf16
 b u16dbg cargo build --profile dbg --offline --features utf16
 b nostd cargo build --release --offline --no-default-features --features nostd,pikevm
 b pat cargo +nightly build --release --offline --features pattern
+( cd "$ROOT/tools/sendsync" && CARGO_TARGET_DIR="$B/ss" cargo check --offline ) >"$B/build_ss.log" 2>&1 || { echo "build of the static-assertion crate failed:"; tail -n 20 "$B/build_ss.log"; fail=1; }
 exit $fail
